@@ -100,12 +100,10 @@ def _h_value_eq(ex, st, callee, args):
     a, b = args
     while isinstance(a, Ptr) and isinstance(a.get(), Ptr): a = a.get()
     while isinstance(b, Ptr) and isinstance(b.get(), Ptr): b = b.get()
-    if callee.endswith('::ne'):
-        raise Unsupported('Value::ne')     # handled by callers through eq + negation where needed
     from vlib.symex import Inline
-    return Inline(f, [a, b])
+    return Inline(f, [a, b], post='not' if callee.endswith('::ne') else None)
 
 
 VALUE_HOOKS = [
-    (re.compile(r'^<&(?:varpulis_core::)?Value as PartialEq>::eq$'), _h_value_eq),
+    (re.compile(r'^<&?(?:varpulis_core::)?Value as PartialEq>::(eq|ne)$'), _h_value_eq),
 ]
